@@ -457,6 +457,32 @@ def correspond(exe_impl, exe_model, driver, cases, sandbox=False, shards=None, t
     return impl, model, problems
 
 
+PURE_EXTERNAL = re.compile(r"^(mem\w+|str\w+|is\w+|to(upper|lower)|abs|labs|qsort|bsearch|v?sn?printf|__assert_fail|__errno_location|"
+                           r"__stack_chk_fail|localtime(_r)?|gmtime(_r)?|strftime|sysconf|lua\w+|luaL_\w+|_binary_\w+|__\w+_chk|"
+                           r"__isoc\d+_\w+|getopt\w*|optarg|optind|opterr|optopt|environ|exit|abort|std(err|out|in))$")
+
+
+def unknown_externals(bdir):
+    """External functions klunok's own objects call that are neither interposed by the harness (so part of the call
+    log and of the model's `call` type) nor pure library functions: a system interaction the model does not know."""
+    objs = [f for f in sorted(os.listdir(bdir)) if f.endswith(".o") and not f.startswith(("h_", "lua_"))]
+    if not objs:
+        return []
+    r = run(["nm", "-A", "--defined-only"] + objs, cwd=bdir)
+    defined = {l.split()[-1] for l in r.stdout.split("\n") if len(l.split()) >= 3}
+    r = run(["nm", "-A", "-u"] + objs, cwd=bdir)
+    unknown = []
+    for l in r.stdout.split("\n"):
+        t = l.split()
+        if len(t) < 2 or t[-2] not in ("U", "w"):
+            continue
+        sym = t[-1].split("@")[0]
+        if sym in defined or sym.startswith(("__wrap_", "__hook_")) or PURE_EXTERNAL.match(sym):
+            continue
+        unknown.append("%s (%s)" % (sym, t[0].split(":")[0]))
+    return sorted(set(unknown))
+
+
 def prepare(rep, need_model=True, sanitize=False, tag=None):
     """Steps 1-2 of every check: proofs, model, harness.  Returns (impl, model)."""
     res = check_properties(rep.pid)
@@ -475,6 +501,13 @@ def prepare(rep, need_model=True, sanitize=False, tag=None):
         # the working tree does not compile: nothing can be shown
         rep.violation("harness-build", {"what": "implementation harness does not build from /repo", "output": err[-3000:]},
                       found_input=False)
+    else:
+        unk = unknown_externals(os.path.join(BUILD, tag or rep.pid))
+        rep.cov["external_calls_outside_the_model"] = unk
+        if unk:
+            rep.defer_divergence({"what": "klunok now calls external function(s) that are neither in the model's call type nor pure library "
+                                          "functions: %s; the model no longer describes what the code does to the system" % ", ".join(unk),
+                                  "broken": "correspondence (set of system interactions)", "script": []})
     return exe_impl, exe_model
 
 
